@@ -8,7 +8,7 @@ implementation: emmet.abbreviation.parse (tokenize + parse + convert, attributes
 exactly the node(s) the SPEC gives.  The same texts go through the extracted model (coq/run/TextRun.v,
 `parse_abbr`), which the theorems speak about.  Nothing here imports parser/convert code of the implementation.
 
-Element  := name part*            part := '#'word | '.'word | '[' attr (' ' attr)* ']'
+Element  := name part* text?      part := '#'word | '.'word | '[' attr (' ' attr)* ']'      text := '{' e '}'
 attr     := '!'? aname '.'? value  value := '' | '=' | '='unq | "='" q "'" | '="' q '"' | '={' e '}'
 """
 import json
@@ -149,7 +149,8 @@ def rand_elem(rng, jsx=False, nparts=None):
             parts.append(('class', rword(rng, NAME_CH if rng.random() < 0.3 else LETTERS + DIGITS + '-_', 1, 4)))
         else:
             parts.append(('set', [rand_attr(rng) for _ in range(rng.choice([0, 1, 1, 2, 3, 5]))]))
-    return {'name': name, 'parts': parts}
+    text = rand_braced(rng) if rng.random() < 0.35 else None          # (written, value)
+    return {'name': name, 'parts': parts, 'text': text}
 
 
 def elem_text(e):
@@ -161,6 +162,8 @@ def elem_text(e):
             out.append('.' + x)
         else:
             out.append('[' + ' '.join(a['text'] for a in x) + ']')
+    if e.get('text') is not None:
+        out.append('{' + e['text'][0] + '}')
     return ''.join(out)
 
 
@@ -189,7 +192,10 @@ def mentions_of(e):
 
 def node_of(e, kids=()):
     ms = mentions_of(e)
-    return (e['name'], None, None, ms if ms else None, False, tuple(kids))
+    value = None
+    if e.get('text') is not None and e['text'][1]:
+        value = (('s', e['text'][1]),)           # the payload with escapes resolved; nothing for `{}`
+    return (e['name'], value, None, ms if ms else None, False, tuple(kids))
 
 
 # ---------------------------------------------------------------- statements: e1 op1 e2 ... en
@@ -231,8 +237,8 @@ def stmt_tree(xs):
 
 
 # ---------------------------------------------------------------- fixed seeds (run first)
-def lit(name, *parts):
-    return {'name': name, 'parts': list(parts)}
+def lit(name, *parts, text=None):
+    return {'name': name, 'parts': list(parts), 'text': text}
 
 
 def attr(name, kind, written, value, vt, implied=False, boolean=False):
@@ -254,6 +260,9 @@ SEEDS = [
     lit('x', ('set', [attr('t', 'q2', '=""', '', 2), attr('u', 'expr', '={}', '', 3), attr('v', 'q2', '="*"', '*', 2)])),
     lit('x', ('set', [attr('t', 'q2', '=" x\ny\\$"', ' x\ny$', 2)])),
     lit('d-1:e!', ('class', 'a-b'), ('id', '_'), ('class', '9')),
+    lit('p', ('class', 'c'), ('set', [attr('t', 'unq', '=1', '1', 0)]), text=('a>b*3 \\{x\\} (y)', 'a>b*3 {x} (y)')),
+    lit('p', ('set', [attr('t', 'q2', '="]"', ']', 2)]), text=('', '')),
+    lit('p', ('id', 'i'), text=(' [x] {y{z}} \\$ ', ' [x] {y{z}} $ ')),
 ]
 
 
@@ -402,7 +411,8 @@ def expand_expected(e, cfg):
     from emmet.config import Config
     opts = Config(copy.deepcopy(cfg)).options
     spec = au.element_spec(au_mentions(e), opts)
-    return '<%s%s></%s>' % (e['name'], ''.join(au.render_attr(r) for r in spec), e['name'])
+    text = e['text'][1] if e.get('text') is not None else ''
+    return '<%s%s>%s</%s>' % (e['name'], ''.join(au.render_attr(r) for r in spec), text, e['name'])
 
 
 def run_expand_stream(ctx, prop, n):
@@ -419,6 +429,8 @@ def run_expand_stream(ctx, prop, n):
         while True:
             e = rand_elem(rng, jsx) if k >= len(SEEDS) * 2 else json.loads(json.dumps(SEEDS[k // 2]))
             e['parts'] = [tuple(p) for p in e['parts']]
+            if e.get('text') is not None and e['text'][1].startswith('<'):
+                e['text'] = None          # text that starts with a block-level tag is laid out on its own lines (C12)
             if e['name'] in markup_snippets or e['name'].lower() in markup_snippets or re.match(r'(?i)lorem', e['name']):
                 e['name'] = 'x' + e['name']
             if jsx and 'A' <= e['name'][0] <= 'Z':
@@ -427,7 +439,7 @@ def run_expand_stream(ctx, prop, n):
             # statement domain: values free of line breaks (a line break inside a value is re-indented: C12)
             if any(c in text for c in '\r\n'):
                 if k < len(SEEDS) * 2:
-                    e = {'name': 'x', 'parts': []}
+                    e = {'name': 'x', 'parts': [], 'text': None}
                     break
                 continue
             break
